@@ -8,6 +8,7 @@ if ! git diff --quiet; then echo "/repo has uncommitted changes; refusing"; exit
 trap 'git -C /repo checkout -- . ; git -C /repo clean -fdq -- src tests' EXIT
 git apply "$PATCH" || { echo "patch does not apply"; exit 2; }
 cd /verif
+export VERIF_EVIDENCE_DIR=/verif/build/evidence_scratch   # committed evidence must come from the unchanged tree only
 for p in "$@"; do
   out=$(VERIF_SEED=${VERIF_SEED:-1} ./check "$p" --tier ${TIER:-quick} 2>&1); rc=$?
   echo "== $p exit=$rc"; echo "$out" | grep -E "VIOLATION|KNOWN-FINDING|\[check" | cut -c1-400
